@@ -356,7 +356,7 @@ def allocating_fns(F):
     return res
 
 
-@rule('LIMIT-BEFORE-ALLOC', ['C17'], floor=1)
+@rule('LIMIT-BEFORE-ALLOC', ['C17'], floor=2)
 def limit_before_alloc(ctx):
     """A reader created with a memory limit compares the limit with the estimator's figure, and fails
     with out-of-memory, before any call that can allocate."""
@@ -408,6 +408,23 @@ def limit_before_alloc(ctx):
                     last_seg(callee_of(f.blocks[early[0]]['term'])['path'])))
             else:
                 ctx.ok(key, f.loc(s), 'limit < estimate rejects with out-of-memory before the %d allocating call(s)' % len(ac))
+            # the figure compared with the limit is computed from the very values the reader is then built with
+            key2 = '%s:limit-checked-on-construction-parameters' % f.key
+            for eb, et in est_calls:
+                eargs = [prov.operand(a, 0, '%d:T' % eb) for a in et['args']]
+                for b in ac:
+                    t2 = f.blocks[b]['term']
+                    gs = F.resolve_callee(Callee(callee_of(t2)))
+                    if not any(g.self_adt == f.self_adt for g in gs) or not f.dominates(s, b):
+                        continue
+                    cargs = {expr_str(prov.operand(a, 0, '%d:T' % b)) for a in t2['args']}
+                    missing = [expr_str(x)[:70] for x in eargs if expr_str(x) not in cargs]
+                    if missing:
+                        ctx.violation(key2, f.loc(eb), 'the memory need is estimated for %s but the reader is constructed with (%s): '
+                                      'the limit test and the allocation can disagree' % (', '.join(missing), ', '.join(sorted(cargs))[:120]))
+                    else:
+                        ctx.ok(key2, f.loc(eb), 'estimator arguments (%s) are passed unchanged to %s' % (
+                            ', '.join(expr_str(x)[:30] for x in eargs), last_seg(callee_of(t2)['path'])))
     if n == 0:
         ctx.anchor_missing('public constructor comparing a limit parameter with a memory estimator')
 
